@@ -38,3 +38,19 @@ func specReady() bool {
 //@   pure
 //@   trusted
 //@   ensures result != nil ==> result.FaceID() == id
+
+// ---------------------------------------------------------------------------------------
+// C04, stream framing under an ARBITRARY byte stream (the C11 contract of readTlvStream, in fw/face, assumes a well-formed
+// stream; this second contract is the receive path's view and assumes nothing about the bytes): no slice expression
+// leaves the receive buffer, and the loop cannot spin: Read is never handed an empty buffer (the only way an iteration
+// can fail to consume input without returning), because at every outer iteration the unconsumed tail has been moved to
+// the front and is shorter than one maximum-size packet.
+// ---------------------------------------------------------------------------------------
+
+//@ func github.com/named-data/ndnd/fw/face.readTlvStream
+//@   requires reader != nil && onFrame != nil
+//@   call reader.Read requires [never-empty-buffer] len(p) >= 1
+//@   call reader.Read modifies p[*]
+//@   call reader.Read ensures 0 <= n && n <= len(p)
+//@   loop 1 invariant [tail-at-front] tlvOff == 0 && 0 <= recvOff && recvOff < defn.MaxNDNPacketSize && len(recvBuf) == defn.MaxNDNPacketSize*32
+//@   loop 2 invariant 0 <= tlvOff && tlvOff <= recvOff && recvOff <= len(recvBuf) && len(recvBuf) == defn.MaxNDNPacketSize*32
